@@ -78,7 +78,7 @@ def write_env(prog, f_write):
 def body(ctx):
     prog = ctx.load(True)
     reply_capacity(ctx, prog)    # also records what ChannelSlot::new puts into fields the harness does not know
-    ctx.assume("a successful write accepts at least one byte of a non-empty slice and at most the slice (std::io::Write contract; Ok(0) would spin the loop and is outside the fault model)")
+    ctx.assume("a successful write accepts between 0 bytes and the whole slice (std::io::Write contract); Ok(0) loses nothing and is tried again - a transport that answers Ok(0) for ever makes the write loop spin, which is liveness outside this claim")
     ctx.assume("frame generators obey the cookie-factory contract: on a buffer shorter than pos+L they demand a size in (len, pos+L], otherwise they write exactly L bytes at pos")
     viol = []
     ctx.replay_timeout = 180   # a write loop that never terminates shows up as a hang of the native differential
@@ -106,7 +106,7 @@ def body(ctx):
     if viol:
         ctx.report('outbound-stream', f"{len(viol)} obligations violated, e.g. {str(viol[0])[:250]}; confirmed by the native write-path differential", {'solver_counterexamples': [str(v)[:300] for v in viol[:6]]},
                    NATIVE, inject_into='src/io_loop/mod.rs', profiles=('dev',), hang_is_violation=True, panic_is_violation=True)
-    elif ctx.tier == 'thorough' and not wi:
+    elif (ctx.tier == 'thorough' or os.environ.get('VERIF_NATIVE')) and not wi:
         rp = ctx.replay_native('write-path-differential', NATIVE, inject_into='src/io_loop/mod.rs', profiles=('dev', 'release'))
         ctx.extra['native_write_path_differential'] = {k: v.get('tail', '')[-160:] for k, v in rp['profiles'].items()}
         if rp['reproduced']:
@@ -451,11 +451,11 @@ fn verif_replay_c01d() {
     }
     // data is pending when the loop wakes up, the writable event flushes all of it (no would-block), and a later event of the same batch
     // queues more - sealed or not: the loop must get round to writing that as well (edge-triggered: only a re-registration re-arms)
-    for sealed in [false, true].iter() {
+    // ... also when that late frame takes the backlog over the high-water mark (channels are paused by the same loop step)
+    for (sealed, high_water) in [(false, 16usize << 20), (true, 16 << 20), (false, 4)].iter().cloned() {
         let (dtx, drx) = std::sync::mpsc::channel();
-        let sealed = *sealed;
         std::thread::spawn(move || {
-            let mut io = IoLoop::new(crate::ConnectionTuning::default()).unwrap();
+            let mut io = IoLoop::new(crate::ConnectionTuning::default().buffered_writes_high_water(high_water)).unwrap();
             io.connection_timeout = Some(std::time::Duration::from_millis(300));
             let (reg, set) = mio::Registration::new2();
             let mut stream = VS { reg, set: set.clone(), writes: 0, accepted: Vec::new(), block_first: 0, short_first: 0 };
@@ -481,8 +481,8 @@ fn verif_replay_c01d() {
         });
         match drx.recv_timeout(std::time::Duration::from_secs(5)) {
             Ok((true, n)) if n > 8 => (),
-            Ok((ok, n)) => bad.push(format!("late-frame-of-the-batch:sealed={}:ok={}:accepted={}", sealed, ok, n)),
-            Err(_) => bad.push(format!("late-frame-of-the-batch:sealed={}:HANG", sealed)),
+            Ok((ok, n)) => bad.push(format!("late-frame-of-the-batch:sealed={}:high_water={}:ok={}:accepted={}", sealed, high_water, ok, n)),
+            Err(_) => bad.push(format!("late-frame-of-the-batch:sealed={}:high_water={}:HANG", sealed, high_water)),
         }
     }
     if bad.is_empty() { println!("VERIF-REPLAY-OK"); } else { println!("VERIF-REPLAY-VIOLATION write-interest-lost {}", bad.join(";").replace(' ', "")); }
